@@ -1,13 +1,13 @@
 // Correspondence + oracle harness for C09 (line directives map statements back to XGo lines).
 //
-//  (i)   posfor cases: every generated Go file (and mutated copies with malformed directives) is
-//        handed line by line to the Lean model `posFor`; the implementation column is the position
-//        table go/scanner + go/token build for the same bytes.
-//  (ii)  static oracle: in the generated Go file every probe call `mark(<id>)` — the first call of
-//        its statement — must have the (file, line) of the statement in the XGo source; every
-//        declared function's `func` keyword must have the line of the XGo declaration.
-//  (iii) runtime oracle (the property's observation point): the built programs print
-//        runtime.Caller(1) and the enclosing function's entry line for every executed probe.
+//	(i)   posfor cases: every generated Go file (and mutated copies with malformed directives) is
+//	      handed line by line to the Lean model `posFor`; the implementation column is the position
+//	      table go/scanner + go/token build for the same bytes.
+//	(ii)  static oracle: in the generated Go file every probe call `mark(<id>)` — the first call of
+//	      its statement — must have the (file, line) of the statement in the XGo source; every
+//	      declared function's `func` keyword must have the line of the XGo declaration.
+//	(iii) runtime oracle (the property's observation point): the built programs print
+//	      runtime.Caller(1) and the enclosing function's entry line for every executed probe.
 package main
 
 import (
@@ -100,19 +100,23 @@ func compile(g *progGen, comments bool) (out string, err error) {
 	fmap := map[string]string{}
 	var names []string
 	for _, f := range g.files {
-		fmap["/pkg/"+f.name] = strings.Join(f.lines, "\n") + "\n"
+		text := strings.Join(f.lines, "\n") + "\n"
+		if len(f.lines) == 0 {
+			text = ""
+		}
+		fmap[g.dir+"/"+f.name] = text
 		names = append(names, f.name)
 	}
-	mfs := memfs.New(map[string][]string{"/pkg": names}, fmap)
+	mfs := memfs.New(map[string][]string{g.dir: names}, fmap)
 	var mode parser.Mode
 	if comments {
 		mode = parser.ParseComments
 	}
-	pkgs, err := parser.ParseFSDir(impFset, mfs, "/pkg", parser.Config{ClassKind: build.ClassKind, Mode: mode})
+	pkgs, err := parser.ParseFSDir(impFset, mfs, g.dir, parser.Config{ClassKind: build.ClassKind, Mode: mode})
 	if err != nil {
 		return "", fmt.Errorf("parse: %v", err)
 	}
-	conf := &cl.Config{Fset: impFset, Importer: imp, RelativeBase: "/pkg", NoFileLine: false,
+	conf := &cl.Config{Fset: impFset, Importer: imp, RelativeBase: g.relBase, NoFileLine: false,
 		LookupClass: func(ext string) (*cl.Project, bool) { return nil, false }}
 	p, err := cl.NewPackage("", pkgs["main"], conf)
 	if err != nil {
@@ -277,7 +281,10 @@ func staticOracle(o *vh.Out, g *progGen, mode string, out string, caseLine strin
 		seen[n1] = true
 		pos := fset.Position(c.Pos())
 		o.Count("static_probes")
-		if pos.Filename != p.File || pos.Line != p.Line {
+		if want := filepath.Clean(g.directiveName(p.File)); pos.Filename != want {
+			o.Oracle("stmt-file:"+g.cfgKind+":"+mode, caseLine,
+				fmt.Sprintf("probe %d (%s) written in %s/%s with RelativeBase %q: expected directive file %s, generated Go names %s", p.ID, p.Kind, g.dir, p.File, g.relBase, want, pos.Filename))
+		} else if pos.Line != p.Line {
 			o.Count("static_mismatch_" + p.Kind)
 			o.Oracle("stmt-line:"+p.Kind+":"+mode, caseLine,
 				fmt.Sprintf("probe %d (%s) written at %s:%d, generated Go maps it to %s:%d", p.ID, p.Kind, p.File, p.Line, pos.Filename, pos.Line))
@@ -315,7 +322,10 @@ func staticOracle(o *vh.Out, g *progGen, mode string, out string, caseLine strin
 		}
 		pos := fset.Position(fd.Pos())
 		o.Count("static_funcs")
-		if pos.Filename != fi.File || pos.Line != fi.Line {
+		if want := filepath.Clean(g.directiveName(fi.File)); pos.Filename != want {
+			o.Oracle("func-file:"+g.cfgKind+":"+mode, caseLine,
+				fmt.Sprintf("func %s written in %s/%s with RelativeBase %q: expected directive file %s, generated Go names %s", name, g.dir, fi.File, g.relBase, want, pos.Filename))
+		} else if pos.Line != fi.Line {
 			kind := "func"
 			if fi.Doc > 0 {
 				kind = "func-with-doc"
@@ -338,6 +348,13 @@ type built struct {
 	mode string
 	out  string
 	line string
+	dir  string // directory of the generated main.go (relative //line names are relative to it)
+}
+
+// runtimeFile: the file name the built program reports for a //line name (cmd/compile keeps a
+// relative name of a line directive as written).
+func (b built) runtimeFile(src string) string {
+	return filepath.Clean(b.g.directiveName(src))
 }
 
 func runBatch(dir string, progs []built, timeout time.Duration) ([]string, error) {
@@ -346,6 +363,9 @@ func runBatch(dir string, progs []built, timeout time.Duration) ([]string, error
 	os.WriteFile(filepath.Join(dir, "go.mod"), []byte(gomod), 0o644)
 	sum, _ := os.ReadFile(filepath.Join(repo(), "go.sum"))
 	os.WriteFile(filepath.Join(dir, "go.sum"), sum, 0o644)
+	for i := range progs {
+		progs[i].dir = filepath.Join(dir, fmt.Sprintf("p%03d", i))
+	}
 	for i, p := range progs {
 		d := filepath.Join(dir, fmt.Sprintf("p%03d", i))
 		os.MkdirAll(d, 0o755)
@@ -410,8 +430,11 @@ func runtimeOracle(o *vh.Out, b built, stdout string) {
 		}
 		seen[id] = true
 		o.Count("runtime_probes")
-		file, ln := filepath.Base(fs[2]), fs[3]
-		if file != p.File || ln != strconv.Itoa(p.Line) {
+		file, ln := fs[2], fs[3]
+		if want := b.runtimeFile(p.File); file != want {
+			o.Oracle("stmt-file:"+b.g.cfgKind+":"+b.mode, b.line,
+				fmt.Sprintf("runtime.Caller: probe %d (%s) written in %s/%s (RelativeBase %q) reported in file %s, expected %s", p.ID, p.Kind, b.g.dir, p.File, b.g.relBase, file, want))
+		} else if ln != strconv.Itoa(p.Line) {
 			o.Oracle("stmt-line:"+p.Kind+":"+b.mode, b.line,
 				fmt.Sprintf("runtime.Caller: probe %d (%s) written at %s:%d reported at %s:%s", p.ID, p.Kind, p.File, p.Line, file, ln))
 		}
@@ -420,8 +443,11 @@ func runtimeOracle(o *vh.Out, b built, stdout string) {
 		name = strings.NewReplacer("(*", "", ")", "").Replace(name)
 		if fi, ok := fns[name]; ok {
 			o.Count("runtime_entries")
-			ef, el := filepath.Base(fs[4]), fs[5]
-			if ef != fi.File || el != strconv.Itoa(fi.Line) {
+			ef, el := fs[4], fs[5]
+			if want := b.runtimeFile(fi.File); ef != want {
+				o.Oracle("func-file:"+b.g.cfgKind+":"+b.mode, b.line,
+					fmt.Sprintf("runtime entry of %s written in %s/%s (RelativeBase %q) reported in file %s, expected %s", name, b.g.dir, fi.File, b.g.relBase, ef, want))
+			} else if el != strconv.Itoa(fi.Line) {
 				kind := "func"
 				if fi.Doc > 0 {
 					kind = "func-with-doc"
@@ -480,9 +506,10 @@ func main() {
 			}
 			fmt.Println("--- generated Go\n" + out)
 			staticOracle(o, g, fs[3], out, line)
-			res, err := runBatch(filepath.Join(abs, "build"), []built{{g, fs[3], out, line}}, 20*time.Second)
+			bs := []built{{g: g, mode: fs[3], out: out, line: line}}
+			res, err := runBatch(filepath.Join(abs, "build"), bs, 20*time.Second)
 			if err == nil {
-				runtimeOracle(o, built{g, fs[3], out, line}, res[0])
+				runtimeOracle(o, bs[0], res[0])
 			} else {
 				fmt.Println(err)
 			}
@@ -512,6 +539,7 @@ func main() {
 			continue
 		}
 		o.Count("programs_" + mode)
+		o.Count("config_" + g.cfgKind)
 		o.Count(fmt.Sprintf("files_%d", len(g.files)))
 		for k, v := range g.stats {
 			o.Stats[k] += v
@@ -523,7 +551,7 @@ func main() {
 			posforCase(o, []byte(mutate(mr, out)), true)
 		}
 		if len(progs) < nRun {
-			progs = append(progs, built{g, mode, out, line})
+			progs = append(progs, built{g: g, mode: mode, out: out, line: line})
 		}
 	}
 	// hand-written directive corner cases for the model
